@@ -105,6 +105,17 @@ struct LqRun {
         Ct c; c.ct.alloc(R.sz(JV_SZ_LQ_CT)); c.id = (size_t) (d - &ids[0]); c.symlen = symlen;
         Bytes sym(symlen + 8, 0xA5);            // 8 guard bytes in front of ASan's redzone: "nothing written beyond the requested length"
         env.hash.calls.clear(); begin((uint64_t) op.arg(0), op.s);
+        // a callback that leaves by throwing (the random source fails on its k-th request, or the KDF refuses): the exception must reach the
+        // caller through either interface; nothing is learnt from the outputs of a cancelled call
+        for (auto& f : op.s) if (f.compare(0, 7, "cancel:") == 0) {
+            bool viahash = f[7] == 'h'; env.hash.calls.clear(); begin((uint64_t) op.arg(0)); if (viahash) env.hash.cancel_next = true; else env.stream.cancel_at = atoi(f.c_str() + 8);
+            bool arrived = false; Bytes sy(symlen + 8, 0xA5);
+            try { R.jv_lq_encrypt(view, c.ct, sy.p, symlen, params, d->id, jv_hash_cb, jv_rand_cb); } catch (CallbackCancelled&) { arrived = true; }
+            env.hash.cancel_next = false; env.stream.cancel_at = -1; env.count("fault:callback_leaves_by_throwing");
+            env.logf("LQENC cancelled via %s arrived=%d", viahash ? "hash" : "random", arrived);
+            env.check(arrived, "C16", "cancel:exception-reaches-caller", "a callback left by throwing and the exception did not reach the caller of encrypt");
+            env.add_case(strf("lqenc cancel %c", f[7]), true); return;
+        }
         bool nullout = symlen == 0 && (op.arg(0) & 1);   // "no key wanted": length 0 with no buffer at all (what std::vector<uint8_t>(0).data() gives); the hash still sees the same bytes
         if (nullout) env.count("fault:zero_length_key_with_null_buffer");
         R.jv_lq_encrypt(view, c.ct, nullout ? nullptr : sym.p, symlen, params, d->id, jv_hash_cb, jv_rand_cb);
@@ -250,7 +261,7 @@ struct LqScenario : Scenario {
             else if (k == 1) { Op o{"MSKHOP", {r.chance(1, 2), r.chance(1, 2)}, {}}; int m = r.range(0, 6); if (m == 1) o.s.push_back(strf("flip:%d:%d", r.range(28, 31), r.range(4, 7))); else if (m == 5) o.s.push_back("val:" + glv_code(r)); else if (m == 6) o.s.push_back("val:" + value_codes()[r.below(value_codes().size())]); else if (m == 2) o.s.push_back("ge_r"); else if (m == 3) o.s.push_back("max"); else if (m == 4) o.s.push_back(strf("set:31:%d", r.range(0x74, 0xFF))); p.ops.push_back(o); }
             else if (k <= 3) p.ops.push_back({"KEYGEN", {(int64_t) r.below(8)}, {}});
             else if (k == 6 && r.chance(1, 12)) p.ops.push_back({"ENCHUGE", {ss, (int64_t) r.below(8)}, {}});
-            else if (k <= 6) { Op o{"ENC", {ss, (int64_t) r.below(8), (int64_t) r.below(6)}, {}}; if (r.chance(1, 3)) o.s.push_back(sf[r.below(6)]); p.ops.push_back(o); }
+            else if (k <= 6) { Op o{"ENC", {ss, (int64_t) r.below(8), (int64_t) r.below(6)}, {}}; if (r.chance(1, 3)) o.s.push_back(sf[r.below(6)]); else if (r.chance(1, 12)) o.s.push_back(r.chance(1, 2) ? std::string("cancel:h") : strf("cancel:r%d", (int) r.below(4))); p.ops.push_back(o); }
             else if (k <= 9) p.ops.push_back({"DEC", {(int64_t) r.below(8), (int64_t) r.below(6), r.chance(1, 2), (int64_t) r.below(512)}, {}});
             else { Op o{"HOP", {(int64_t) r.below(4), (int64_t) r.below(8), r.chance(1, 2), r.chance(2, 3)}, {}}; int m = r.range(0, 3); if (m == 1) o.s.push_back(strf("elem:%d:%s:%llu", (int) r.below(2), invalid_kinds()[r.below(invalid_kinds().size())].c_str(), (unsigned long long) (r.next() >> 8))); else if (m == 2) o.s.push_back(strf("flip:%d:%d", (int) r.below(192), r.range(0, 7))); p.ops.push_back(o); }
         }
